@@ -319,7 +319,10 @@ def run_case(c: Case, stats: Stats) -> None:
                 want = ref.encode(mk, v)
                 obj = pyexec.new_message(mods[newest], mk)
                 pyexec.set_value(mods[newest], obj, mk, v)
-                got = bytes(obj.encode())
+                try:
+                    got = bytes(obj.encode())
+                except Exception as e:
+                    raise Violation(f"newest version's Python encoder raised {type(e).__name__}: {e} for {mk.name}", {"value": v}, signature=f"newest-encode-exc:{type(e).__name__}")
                 if got != want:
                     raise Violation(f"newest version's Python encoder differs from the specification for {mk.name}: {got.hex()} vs {want.hex()}", {"value": v}, signature="newest-encode")
                 out.append((v, want))
